@@ -199,7 +199,7 @@ func cmdBatch(args []string) {
 		_ = os.MkdirAll(replayDir, 0o755)
 		path := filepath.Join(replayDir, fmt.Sprintf("%d-%d.json", fd.res.Seed, i))
 		if i < 3 && fd.res.TracePath != "" {
-			if err := minimizeAndWrite(fd.res.TracePath, fd.v, path, 90*time.Second); err != nil {
+			if err := minimizeAndWrite(fd.res.TracePath, fd.v, path, time.Duration(envInt("VERIF_MINIMIZE_S", 75))*time.Second); err != nil {
 				fmt.Fprintf(os.Stderr, "minimise failed (%v); writing unminimised replay\n", err)
 				_ = writeReplayUnminimised(fd.res.TracePath, fd.v, path)
 			}
